@@ -370,3 +370,178 @@ Print Assumptions C18_enc_response_complete.
 Print Assumptions C18_enc_response_refuses.
 Print Assumptions C18_encrypt_secret_len.
 Print Assumptions C18_source_texts.
+
+(* ======================================================================================================
+   Phase 5: the encryption handshake and the wire layout of PublicKey / Property.
+   Encrypt, encryptionRequest (server/auth), handleEncryptionRequest, loginAuth, genEncryptionKeyResponse,
+   newSymmetricEncryption (bot) and PublicKey.VerifyMessage are TRANSLATED statement by statement (Gen/C18gen.v);
+   what they do to the connection and to the outside world is an event trace in program order
+   (Model/C18_enc.v: EWrite, EReadResponse, ESetCipher, EAuth, EJoin).
+   ====================================================================================================== *)
+From GoMC Require Model.C06 Proofs.C18_skel_hs Proofs.C18_tie_wire.
+
+Theorem C18_encryptionRequest_translated : forall conn_write hello_id tr pub token,
+  C18gen.auth_encryptionRequest conn_write hello_id tr pub token
+  = let tr1 := tr ++ [EWrite (hello_id, PFields [FString []; FByteArray pub; FByteArray token])] in Ok (tr1, conn_write tr1).
+Proof. exact C18_skel_hs.tie_encryptionRequest. Qed.
+Theorem C18_Encrypt_translated : forall (RESP : Type) conn_write rand_read hello_id login_key_id sha1 marshal_pub read_packet scan2 decrypt
+    (authentication : list N -> list N -> option RESP) tr name,
+  C18gen.auth_Encrypt RESP marshal_pub rand_read conn_write hello_id read_packet login_key_id scan2 decrypt sha1 authentication tr name
+  = srv_encrypt RESP conn_write rand_read hello_id login_key_id (C18gen.auth_authDigest sha1)
+      marshal_pub read_packet scan2 decrypt authentication tr name.
+Proof. exact C18_skel_hs.tie_Encrypt. Qed.
+Theorem C18_newSymmetricEncryption_translated : forall rand_read,
+  C18gen.bot_newSymmetricEncryption rand_read
+  = match rand_read 16%Z with
+    | None => Panic
+    | Some key => if negb (aes_key_ok key) then Panic else Ok (key, SEnc key key, SDec key key)
+    end.
+Proof. exact C18_skel_hs.tie_newSymmetricEncryption. Qed.
+Theorem C18_genEncryptionKeyResponse_translated : forall (PUB : Type) login_key_id (parse_pub : list N -> option PUB) is_rsa rsa_encrypt secret pub token,
+  C18gen.bot_genEncryptionKeyResponse PUB parse_pub is_rsa rsa_encrypt login_key_id secret pub token
+  = bot_key_response PUB login_key_id parse_pub is_rsa rsa_encrypt secret pub token.
+Proof. exact C18_skel_hs.tie_genEncryptionKeyResponse. Qed.
+Theorem C18_loginAuth_translated : forall sha1 session_join tr secret sid pub token,
+  C18gen.bot_loginAuth sha1 session_join tr secret sid pub token
+  = match C18gen.bot_authDigest sha1 sid secret pub with
+    | Ok d => Ok (tr ++ [EJoin d], session_join d)
+    | Panic => Panic
+    | OutOfFuel => OutOfFuel
+    end.
+Proof. exact C18_skel_hs.tie_loginAuth. Qed.
+Theorem C18_handleEncryptionRequest_translated : forall (PUB : Type) conn_write rand_read login_key_id sha1 scan_er session_join
+    (parse_pub : list N -> option PUB) is_rsa rsa_encrypt tr p,
+  C18gen.bot_handleEncryptionRequest rand_read scan_er sha1 session_join PUB parse_pub is_rsa rsa_encrypt login_key_id conn_write tr p
+  = bot_handle PUB conn_write rand_read login_key_id (C18gen.bot_authDigest sha1)
+      scan_er session_join parse_pub is_rsa rsa_encrypt tr p.
+Proof. exact C18_skel_hs.tie_handleEncryptionRequest. Qed.
+Theorem C18_VerifyMessage_translated : forall (PK : Type) (rsa_verify_pk : PK -> list N -> list N -> bool) (expires : Z) (pub : PK)
+    (sig hash signature : list N),
+  C18gen.user_PublicKey_VerifyMessage PK rsa_verify_pk expires pub sig hash signature = Ok (negb (rsa_verify_pk pub hash signature)).
+Proof. exact C18_skel_hs.tie_VerifyMessage. Qed.
+
+(* server: the response is read, THEN the cipher is enabled; key = IV = the secret that came with the echoed token,
+   the same for both directions; stated about the translated Encrypt for EVERY run that returns *)
+Theorem C18_server_cipher_order : forall (RESP : Type) marshal_pub rand_read conn_write hello_id read_packet login_key_id scan2 decrypt sha1
+    (authentication : list N -> list N -> option RESP) tr0 name tr r pre a b post,
+  C18gen.auth_Encrypt RESP marshal_pub rand_read conn_write hello_id read_packet login_key_id scan2 decrypt sha1 authentication tr0 name = Ok (tr, r) ->
+  tr = tr0 ++ pre ++ ESetCipher a b :: post ->
+  exists pub token s, pre = [EWrite (hello_id, PFields [FString []; FByteArray pub; FByteArray token]); EReadResponse] /\
+    a = SEnc s s /\ b = SDec s s /\ encrypt_secret read_packet login_key_id scan2 decrypt token = Some s.
+Proof. exact C18_skel_hs.srv_cipher_order_translated. Qed.
+(* bot: the response is sent, THEN the cipher is enabled (and nothing follows); key = IV = the fresh key, both directions *)
+Theorem C18_bot_cipher_order : forall (PUB : Type) rand_read scan_er sha1 session_join (parse_pub : list N -> option PUB) is_rsa rsa_encrypt
+    login_key_id conn_write tr0 p tr e pre a b post,
+  C18gen.bot_handleEncryptionRequest rand_read scan_er sha1 session_join PUB parse_pub is_rsa rsa_encrypt login_key_id conn_write tr0 p = Ok (tr, e) ->
+  tr = tr0 ++ pre ++ ESetCipher a b :: post ->
+  exists d resp key, pre = [EJoin d; EWrite resp] /\ post = [] /\ a = SEnc key key /\ b = SDec key key /\ rand_read 16%Z = Some key.
+Proof. exact C18_skel_hs.bot_cipher_order_translated. Qed.
+
+(* the two sides agree.  Packet level: for every secret and token the packet built by the bot's translated
+   genEncryptionKeyResponse is accepted by the server's translated encryptionResponse, which returns that secret *)
+Theorem C18_encryption_handshake_packet : forall (PUB : Type) login_key_id (parse_pub : list N -> option PUB) is_rsa rsa_encrypt decrypt
+    (wire : list field -> list N) scan2 pubb pk,
+  parse_pub pubb = Some pk -> is_rsa pk = true ->
+  (forall i m c, rsa_encrypt i pk m = Some c -> decrypt c = Some m) ->
+  (forall a b, scan2 (wire [FByteArray a; FByteArray b]) = Some (a, b)) ->
+  forall secret token c1 c2, rsa_encrypt 0%Z pk secret = Some c1 -> rsa_encrypt 1%Z pk token = Some c2 ->
+  exists fs,
+    C18gen.bot_genEncryptionKeyResponse PUB parse_pub is_rsa rsa_encrypt login_key_id secret pubb token
+      = Ok ((login_key_id, PFields fs), false) /\
+    C18gen.auth_encryptionResponse (Some (login_key_id, wire fs)) login_key_id scan2 decrypt token = Ok (secret, false).
+Proof. exact C18_skel_hs.handshake_packet. Qed.
+(* whole exchange: both sides enable AES/CFB8 with the SAME key (= IV), after the response went out / came in, and ask the
+   session server with the SAME digest *)
+Theorem C18_encryption_handshake_agrees : forall (RESP PUB : Type) sha1 hello_id login_key_id (parse_pub : list N -> option PUB) is_rsa
+    rsa_encrypt decrypt (wire : list field -> list N) scan2 scan_er pubb pk,
+  parse_pub pubb = Some pk -> is_rsa pk = true ->
+  (forall i m c, rsa_encrypt i pk m = Some c -> decrypt c = Some m) ->
+  (forall a b, scan2 (wire [FByteArray a; FByteArray b]) = Some (a, b)) ->
+  (forall s a b, scan_er (PRaw (wire [FString s; FByteArray a; FByteArray b])) = Some (s, a, b)) ->
+  forall rand_s rand_b conn_write_s conn_write_b (authentication : list N -> list N -> option RESP) session_join,
+  (forall m, all_bytes (sha1 m)) -> (forall m, length (sha1 m) = 20%nat) ->
+  forall (name token key c1 c2 : list N) (resp : RESP),
+  rand_s 16%Z = Some token -> rand_b 16%Z = Some key -> length key = 16%nat ->
+  rsa_encrypt 0%Z pk key = Some c1 -> rsa_encrypt 1%Z pk token = Some c2 ->
+  (forall tr, conn_write_s tr = false) -> (forall tr, conn_write_b tr = false) ->
+  (forall d, session_join d = false) -> (forall h, authentication name h = Some resp) ->
+  let request := (hello_id, PFields [FString []; FByteArray pubb; FByteArray token]) in
+  let response := (login_key_id, PFields [FByteArray c1; FByteArray c2]) in
+  exists d,
+    C18gen.bot_handleEncryptionRequest rand_b scan_er sha1 session_join PUB parse_pub is_rsa rsa_encrypt login_key_id conn_write_b []
+      (hello_id, PRaw (wire [FString []; FByteArray pubb; FByteArray token]))
+    = Ok ([EJoin d; EWrite response; ESetCipher (SEnc key key) (SDec key key)], false) /\
+    C18gen.auth_Encrypt RESP (Some pubb) rand_s conn_write_s hello_id (Some (login_key_id, wire [FByteArray c1; FByteArray c2]))
+      login_key_id scan2 decrypt sha1 authentication [] name
+    = Ok ([EWrite request; EReadResponse; ESetCipher (SEnc key key) (SDec key key); EAuth name d], (Some resp, false)).
+Proof. exact C18_skel_hs.handshake_agrees. Qed.
+
+(* ---- wire layout of user.PublicKey and user.Property (field lists translated from their pk.Tuple literals) ---- *)
+Theorem C18_pk_wire_order : forall ms enc sig,
+  map snd (C18gen.user_PublicKey_WriteTo_fields ms sig enc) = [C06.VZ ms; C06.VBytes enc []; C06.VBytes sig []] /\
+  map fst (C18gen.user_PublicKey_WriteTo_fields ms sig enc) = map fst C18gen.user_PublicKey_ReadFrom_fields /\
+  map snd C18gen.user_PublicKey_ReadFrom_fields = C18_tie_wire.pk_dest_names.
+Proof. exact C18_tie_wire.pk_wire_order. Qed.
+Theorem C18_property_wire_order : forall name value sig,
+  map snd (C18gen.user_Property_WriteTo_fields name sig value)
+    = [C06.VBytes name []; C06.VBytes value []; C06.VOpt (negb (bytes_eqb sig [])) (C06.VBytes sig [])] /\
+  map fst (C18gen.user_Property_WriteTo_fields name sig value) = map fst C18gen.user_Property_ReadFrom_fields /\
+  map snd C18gen.user_Property_ReadFrom_fields = C18_tie_wire.property_dest_names.
+Proof. exact C18_tie_wire.property_wire_order. Qed.
+Theorem C18_pk_wire_roundtrip : forall (ms : Z) (enc sig : list N) (fuel : nat) (extra : list N),
+  (- 2 ^ 63 <= ms < 2 ^ 63)%Z -> all_bytes enc -> lenN enc < 2 ^ 31 -> all_bytes sig -> lenN sig < 2 ^ 31 ->
+  exists rs, Dec.run_flat (C06.scan fuel (C18_tie_wire.dests C18gen.user_PublicKey_ReadFrom_fields))
+                          (C06.marshal (C18gen.user_PublicKey_WriteTo_fields ms sig enc) ++ extra) = Dec.FOk rs extra
+    /\ Forall2 (fun tv r => C06.view (fst tv) r = C06.view (fst tv) (snd tv)) (C18gen.user_PublicKey_WriteTo_fields ms sig enc) rs.
+Proof. exact C18_tie_wire.pk_wire_roundtrip. Qed.
+Theorem C18_property_wire_roundtrip : forall (name value sig : list N) (fuel : nat) (extra : list N),
+  all_bytes name -> lenN name < 2 ^ 31 -> all_bytes value -> lenN value < 2 ^ 31 -> all_bytes sig -> lenN sig < 2 ^ 31 ->
+  exists rs, Dec.run_flat (C06.scan fuel (C18_tie_wire.dests C18gen.user_Property_ReadFrom_fields))
+                          (C06.marshal (C18gen.user_Property_WriteTo_fields name sig value) ++ extra) = Dec.FOk rs extra
+    /\ Forall2 (fun tv r => C06.view (fst tv) r = C06.view (fst tv) (snd tv)) (C18gen.user_Property_WriteTo_fields name sig value) rs.
+Proof. exact C18_tie_wire.property_wire_roundtrip. Qed.
+Theorem C18_handshake_texts :
+  C18gen.bot_handleEncryptionRequest_text = C18_expected.expected_bot_handleEncryptionRequest_text.
+Proof. exact C18_skel.bot_handleEncryptionRequest_text_ok. Qed.
+
+(* ---- non-vacuity: the hypotheses of the agreement theorem hold for a toy RSA (tag the message) and a length-prefixed wire form;
+        the translated functions run on it ---- *)
+Example C18_ex_handshake :
+  let sha1 := fun _ : list N => ex_jeb in
+  exists d,
+    C18gen.bot_handleEncryptionRequest (fun _ => Some (repeat 7 16)) C18_skel_hs.Toy.scan_er sha1 (fun _ => false) unit (fun _ => Some tt)
+      (fun _ => true) C18_skel_hs.Toy.enc 1%Z (fun _ => false) []
+      (0%Z, PRaw (C18_skel_hs.Toy.wire [FString []; FByteArray [1;2;3]; FByteArray (repeat 9 16)]))
+    = Ok ([EJoin d; EWrite (1%Z, PFields [FByteArray (0 :: repeat 7 16); FByteArray (1 :: repeat 9 16)]);
+           ESetCipher (SEnc (repeat 7 16) (repeat 7 16)) (SDec (repeat 7 16) (repeat 7 16))], false) /\
+    C18gen.auth_Encrypt unit (Some [1;2;3]) (fun _ => Some (repeat 9 16)) (fun _ => false) 0%Z
+      (Some (1%Z, C18_skel_hs.Toy.wire [FByteArray (0 :: repeat 7 16); FByteArray (1 :: repeat 9 16)]))
+      1%Z C18_skel_hs.Toy.scan2 C18_skel_hs.Toy.dec sha1 (fun _ _ => Some tt) [] [78]
+    = Ok ([EWrite (0%Z, PFields [FString []; FByteArray [1;2;3]; FByteArray (repeat 9 16)]); EReadResponse;
+           ESetCipher (SEnc (repeat 7 16) (repeat 7 16)) (SDec (repeat 7 16) (repeat 7 16)); EAuth [78] d], (Some tt, false)).
+Proof.
+  apply (C18_skel_hs.handshake_agrees unit unit (fun _ => ex_jeb) 0%Z 1%Z (fun _ => Some tt) (fun _ => true) C18_skel_hs.Toy.enc
+           C18_skel_hs.Toy.dec C18_skel_hs.Toy.wire C18_skel_hs.Toy.scan2 C18_skel_hs.Toy.scan_er [1;2;3] tt);
+    try reflexivity; try (intros; reflexivity).
+  - intros i m c E. injection E as <-. reflexivity.
+  - exact C18_skel_hs.Toy.scan2_wire.
+  - exact C18_skel_hs.Toy.scan_er_wire.
+  - intros m. apply all_bytesb_spec. vm_compute. reflexivity.
+Qed.
+
+Print Assumptions C18_encryptionRequest_translated.
+Print Assumptions C18_Encrypt_translated.
+Print Assumptions C18_newSymmetricEncryption_translated.
+Print Assumptions C18_genEncryptionKeyResponse_translated.
+Print Assumptions C18_loginAuth_translated.
+Print Assumptions C18_handleEncryptionRequest_translated.
+Print Assumptions C18_VerifyMessage_translated.
+Print Assumptions C18_server_cipher_order.
+Print Assumptions C18_bot_cipher_order.
+Print Assumptions C18_encryption_handshake_packet.
+Print Assumptions C18_encryption_handshake_agrees.
+Print Assumptions C18_pk_wire_order.
+Print Assumptions C18_property_wire_order.
+Print Assumptions C18_pk_wire_roundtrip.
+Print Assumptions C18_property_wire_roundtrip.
+Print Assumptions C18_handshake_texts.
